@@ -19,9 +19,9 @@ from . import pdbtext as P
 PID = 'C03'
 
 TIERS = {
-    'quick': {'explore_s': 40, 'selftest_seeds': 8, 'oneshot': 12, 'bare': 8,
+    'quick': {'histories': 480, 'explore_s': 300, 'selftest_seeds': 8, 'oneshot': 12, 'bare': 8,
               'min_wall': 75, 'full_every': 0, 'max_min': 2},
-    'thorough': {'explore_s': 1200, 'selftest_seeds': 64, 'oneshot': 96,
+    'thorough': {'histories': 14000, 'explore_s': 3000, 'selftest_seeds': 64, 'oneshot': 96,
                  'bare': 48, 'min_wall': 150, 'full_every': 25, 'max_min': 4},
 }
 
@@ -262,13 +262,14 @@ def explore(base, wl, wl_full, sc, tier, agg, log):
                 len(v['text']) > 60000 for v in job['inputs'].values()) else 180)
             f.job = job
             inflight.add(f)
-        for _ in range(driver.NPROC * 2):
+        for _ in range(min(driver.NPROC * 2, tier['histories'])):
             submit()
         while inflight:
             done = next(as_completed(inflight))
             inflight.discard(done)
             agg.add(done.job, done.result())
-            if time.time() < deadline and len(agg.mismatches) < 8 and len(agg.harness) < 5:
+            if (i < tier['histories'] and time.time() < deadline
+                    and len(agg.mismatches) < 8 and len(agg.harness) < 5):
                 submit()
     return i
 
@@ -412,6 +413,7 @@ def main(argv=None):
     ap.add_argument('--replay')
     ap.add_argument('--gen-digest')
     ap.add_argument('--explore-s', type=float)
+    ap.add_argument('--histories', type=int)
     ap.add_argument('--no-selftest', action='store_true')
     args = ap.parse_args(argv)
     if args.gen_digest:
@@ -436,6 +438,8 @@ def main(argv=None):
         tier = dict(TIERS[args.tier])
         if args.explore_s:
             tier['explore_s'] = args.explore_s
+        if args.histories:
+            tier['histories'] = args.histories
         log('VERIF_SEED=%d tier=%s workers=%d aslr_off=%s' % (
             base, args.tier, driver.NPROC, bool(driver.setarch_prefix())))
         wl = workload.build(driver.REPO)
@@ -479,6 +483,8 @@ def main(argv=None):
                 'calls_compared_with_reference': agg.compared,
                 'distinct_case_signatures': len(agg.cases),
                 'seed_range': [seed_of(base, 0), seed_of(base, nsub - 1)],
+                'history_budget': tier['histories'],
+                'budget_exhausted_by': 'count' if nsub >= tier['histories'] else 'wall-clock cap or early stop',
                 'histories_per_hour': round(agg.histories / max(wall_explore, 1e-9) * 3600),
                 'simulated_days_covered': agg.days,
                 'faults_armed': agg.armed, 'faults_fired': agg.fired,
